@@ -132,7 +132,7 @@ func twoSidedReads(p *core.Program, pkg *packages.Package, nodes []ast.Stmt, dep
 }
 
 func c04(r *core.Run) {
-	r.Explain = "C04 decided structurally: (SUCC) the value stored into the zipper's Preserved flag depends on a computation that reads BasicBlock successor edges — otherwise the verdict is invariant under exchanging an If's branches; (SENTINEL) every constant that can be stored as a fingerprint (the size-guard marker) is excluded before fingerprint equality may yield 'preserved'; (OPS) the zipper's scalar comparator has, for every instruction kind with non-operand attributes (derived from the go/ssa struct definitions: operators, field numbers, indices, flags, asserted types, invoke mode and method of every kind embedding a CallCommon), a clause reading each attribute on both sides; (EQUIV) every recorded instruction match is dominated by a successful equivalence test, and equivalence requires kind equality, type identity, scalar and operand comparison; (PRES) Preserved is true only when both unmatched lists are empty, and the status 'preserved' is stored only under fingerprint equality or that flag; (COMMZ) crosswise operand matching only for commutative operators (shared with C03.GATE.comm). Not decided: completeness of the matching (that every behaviour change leaves an unmatched instruction)."
+	r.Explain = "C04 decided structurally: (SUCC) the value stored into the zipper's Preserved flag depends on a computation that reads BasicBlock successor edges — otherwise the verdict is invariant under exchanging an If's branches; (SENTINEL) every constant that can be stored as a fingerprint (the size-guard marker) is excluded before fingerprint equality may yield 'preserved'; (OPS) the zipper's scalar comparator has, for every instruction kind with non-operand attributes (derived from the go/ssa struct definitions: operators, field numbers, indices, flags, asserted types, invoke mode and method of every kind embedding a CallCommon), a clause reading each attribute on both sides; (EQUIV) every recorded instruction match is dominated by a successful equivalence test, and equivalence requires kind equality, type identity, scalar and operand comparison; (PRES) Preserved is true only when both unmatched lists are empty, and the status 'preserved' is stored only under fingerprint equality or that flag; (COMMZ) crosswise operand matching only for commutative operators (shared with C03.GATE.comm). Not decided: completeness of the matching (that every behaviour change leaves an unmatched instruction). (SUCC, sharpened) a matched instruction is left out of the block correspondence only for an enumerated reason (unmatched, no operands, no block); (COMMZ) the permission for a crosswise match is followed into a predicate helper if there is one."
 	r.Undecided = []string{"completeness of structural matching: that every behaviour change leaves an unmatched instruction or a block-mapping conflict", "the converse clause for identical copies beyond the fingerprint short-circuit"}
 
 	c04Succ(r)
